@@ -402,3 +402,151 @@ _run_c19 = run
 def run(ck, prog):
     _run_c19(ck, prog)
     eq_lengths(ck, prog)
+
+
+# ------------------------------------------------------------------ equality is reflexive: tolerances are strictly positive
+_run_pre_reflexive = run
+_POS_CONSTS = ("::epsilon", "::one", "::two", "::half", "::max_value", "::min_positive_value", "::infinity")
+
+
+def _positivity(t, depth=0):
+    """'P' strictly positive for every input, 'NN' non-negative, 'U' unknown; second item: does the term read model data?"""
+    import re as _re
+    if depth > 12:
+        return "U", False
+    k = t[0]
+    if k == "call":
+        p = t[1]
+        if not t[2] and p.endswith(_POS_CONSTS):
+            return "P", False
+        subs = [_positivity(x, depth + 1) for x in t[2]]
+        data = any(d for _, d in subs)
+        kinds = [s for s, _ in subs]
+        if p.endswith(("Mul::mul", "::mul")) and len(kinds) == 2:
+            if kinds == ["P", "P"]:
+                return "P", data
+            if all(x in ("P", "NN") for x in kinds):
+                return "NN", data
+        if p.endswith(("Add::add", "::add")) and len(kinds) == 2:
+            if "P" in kinds and all(x in ("P", "NN") for x in kinds):
+                return "P", data
+            if all(x in ("P", "NN") for x in kinds):
+                return "NN", data
+        if p.endswith("::max") and len(kinds) == 2:
+            if "P" in kinds:
+                return "P", data
+            if "NN" in kinds:
+                return "NN", data
+        if p.endswith("::min") and len(kinds) == 2:
+            if kinds == ["P", "P"]:
+                return "P", data
+            if all(x in ("P", "NN") for x in kinds):
+                return "NN", data
+        if p.endswith(("::abs", "::sqrt", "::square", "::exp")) and len(kinds) == 1:
+            return ("P" if p.endswith("::exp") else "NN"), data
+        if p.endswith(("::unwrap", "::from", "::from_f64", "::into", "::clone")) and len(kinds) >= 1:
+            return kinds[0], data
+        return "U", data or any(s[0] in ("arg", "field") for s in subterms(t))
+    if k == "const":
+        m = _re.search(r"(-?[0-9.]+(?:[eE]-?[0-9]+)?)", t[1].replace("const ", "").replace("_f64", "").replace("_f32", "").replace("f64", "").replace("f32", ""))
+        if m:
+            try:
+                v = float(m.group(1))
+                return ("P" if v > 0 else ("NN" if v == 0 else "U")), False
+            except ValueError:
+                pass
+        return "U", False
+    if k == "int":
+        return ("P" if t[1] > 0 else ("NN" if t[1] == 0 else "U")), False
+    if k in ("arg", "field", "idx", "variant", "upvar"):
+        return "U", True
+    if k == "bin" and len(t) == 4:
+        a, b2 = _positivity(t[2], depth + 1), _positivity(t[3], depth + 1)
+        data = a[1] or b2[1]
+        if t[1] == "Mul":
+            if a[0] == b2[0] == "P":
+                return "P", data
+            if {a[0], b2[0]} <= {"P", "NN"}:
+                return "NN", data
+        if t[1] == "Add":
+            if "P" in (a[0], b2[0]) and {a[0], b2[0]} <= {"P", "NN"}:
+                return "P", data
+        return "U", data
+    return "U", any(s[0] in ("arg", "field") for s in subterms(t))
+
+
+def eq_reflexive(ck, prog):
+    """`restored == original` needs eq(m, m) to be true for every finite model. In the hand-written eq functions every test of
+    the form |a - b| < bound (strict) is satisfied on the diagonal only if the bound is strictly positive for every input:
+    a bound that reads the compared values and is merely non-negative (eps * max(|a|, |b|)) vanishes for a == b == 0."""
+    rule = "E5-eq-reflexive"
+    n = 0
+    # the eq functions, their closures, and the local helpers they call (two levels)
+    scope = {}
+    for b in prog.bodies.values():
+        if b.impl_trait == "std::cmp::PartialEq" and b.name == "eq" and b.loc and b.loc[0].startswith("src/") and not b.loc[0].startswith("src/error"):
+            scope[b.path] = b
+    frontier = list(scope.values())
+    for _ in range(2):
+        nxt = []
+        for b in frontier:
+            for cb in prog.closures_of.get(b.path, []):
+                if cb.path not in scope:
+                    scope[cb.path] = b
+                    nxt.append(cb)
+            for bb, t in b.calls():
+                f = t.get("f")
+                if not f:
+                    continue
+                for key in (f.get("resolved"), f.get("path")):
+                    cal = prog.bodies.get(key) if key else None
+                    if cal is not None and cal.path not in scope and cal.loc and cal.loc[0].startswith("src/") and cal.name != "eq":
+                        scope[cal.path] = scope.get(b.path, b) if not isinstance(scope.get(b.path), type(b)) else scope[b.path]
+                        nxt.append(cal)
+                        break
+        frontier = nxt
+    for path in sorted(scope):
+        b = prog.bodies.get(path)
+        if b is None:
+            continue
+        parent = scope[path] if scope[path] is not b else None
+        cx = BodyCtx.of(b)
+        from collections import namedtuple as _nt
+        _C = _nt("_C", "lhs rel rhs where")
+        recs = [_C(c.lhs, c.rel, c.rhs, c.where) for c in cx.cmps]
+        seen_r = {(render(r.lhs), r.rel, render(r.rhs)) for r in recs}
+        # comparisons that are returned as values (no branch): `fn close(a, b) -> bool { (a - b).abs() < bound }`
+        for s_ in subterms(cx.res.local(0)):
+            cnd = guards._cond(cx.res, s_) if s_[0] in ("bin", "call", "un") else None
+            if cnd and (render(cnd[0]), cnd[1], render(cnd[2])) not in seen_r:
+                seen_r.add((render(cnd[0]), cnd[1], render(cnd[2])))
+                recs.append(_C(cnd[0], cnd[1], cnd[2], f"{b.loc[0]}:{b.loc[1]}"))
+        for c in recs:
+            for (L, R, lhs_is_diff) in ((c.lhs, c.rhs, True), (c.rhs, c.lhs, False)):
+                if not (L[0] == "call" and L[1].endswith("::abs") and L[2] and L[2][0][0] == "call" and L[2][0][1].endswith(("Sub::sub", "::sub"))):
+                    continue
+                rel = c.rel if lhs_is_diff else guards.FLIP[c.rel]
+                n += 1
+                adt = re.sub(r"<.*$", "", (b.impl_self or (parent.impl_self if parent is not None else "") or b.name) or "").split("::")[-1]
+                inst = f"{adt}::eq: tolerance of `{render(L)[:50]}` admits identical values"
+                kind, data = _positivity(R)
+                strict = rel in ("<", ">=")            # partition {diff < bound} / {diff >= bound}: equality of diff and bound is 'different'
+                if strict and data and kind != "P":
+                    ck.violation(rule, inst, b.path, c.where, ordinal=n,
+                                 expected="a strictly positive bound (or a non-strict comparison) so that |a - a| = 0 passes",
+                                 found=f"`|a - b| {rel} {render(R)[:70]}`: the bound depends on the compared values and is not strictly positive "
+                                       f"(it is 0 when they are 0), so a model containing such a value is not equal to itself or to its restored copy")
+                else:
+                    ck.ok(rule, inst, b.path, c.where, f"`|a - b| {rel} {render(R)[:50]}`: bound {kind}{', data-dependent' if data else ''}")
+    ck.floor(rule, 5)
+
+
+def run(ck, prog):
+    _run_pre_reflexive(ck, prog)
+    eq_reflexive(ck, prog)
+
+
+EXPLANATION += (" Reflexivity (E5-eq-reflexive): in the hand-written eq functions, their closures and the local helpers they call, "
+                "every strict tolerance test |a - b| < bound has a bound that is strictly positive for every input (epsilon(), positive "
+                "constants, sums/products/max of those); a bound that reads the compared values and is only non-negative vanishes for "
+                "a == b == 0 and makes a model unequal to its own restored copy.")
